@@ -329,7 +329,72 @@ def locate(cfg, vcfg, base, base_spec, upto=12):
     return "+".join(hits[:3]) if hits else "<combination>"
 
 
-RUN = {"inventory": case_inventory, "metamorphic": case_metamorphic, "node_sets": case_node_sets}
+def own_join(folder, ep):
+    """The documented meaning of an episode-scheduled folder, read independently of primaite.session.episode_schedule: episode k is built
+    from the files schedule[k mod len(schedule)] followed by the base scenario, joined as text and parsed as one YAML document (anchors
+    defined in the variant files are referenced by the base file); nested agent lists are flattened."""
+    import os
+
+    import yaml
+
+    sch = yaml.safe_load(open(os.path.join(folder, "schedule.yaml")))
+    entries = sch["schedule"]
+    keys = sorted(entries)
+    files = entries[keys[ep % len(keys)]]
+    text = "\n".join([open(os.path.join(folder, f)).read() for f in files] + [open(os.path.join(folder, sch["base_scenario"])).read()])
+    cfg = yaml.safe_load(text)
+    flat = []
+    for a in cfg.get("agents", []):
+        if isinstance(a, (list, tuple)):
+            flat.extend(a)
+        else:
+            flat.append(a)
+    cfg["agents"] = flat
+    return cfg, tuple(files)
+
+
+def case_folder_env(spec, cov, out):
+    """The way a user loads a folder: PrimaiteGymEnv(env_config=<folder>), episode after episode through the schedule and past its end
+    (so that schedule entries are built a second and a third time by the SAME environment); after every reset the built game must be what
+    the episode's files say."""
+    import shutil
+
+    folder, meta = envrun.scenario_source(*spec["src"])
+    tmp = folder if spec["src"][0] == "genfolder" else None
+    try:
+        env = envdrv.make_env(folder)
+        names = inventory.reward_class_names()
+        seen_entries = {}
+        for ep in range(spec["episodes"]):
+            if ep > 0:
+                for _ in range(spec.get("steps", 3)):
+                    env.step(0)
+                env.reset()
+            cfg, files = own_join(folder, ep)
+            decl = inventory.declared(cfg)
+            for a in decl["agents"].values():
+                a["rewards"] = [[names.get(t, t), w] for t, w in a["rewards"]]
+            blt = inventory.built(env.game, cfg)
+            cov.inc("scenarios_inventoried")
+            cov.inc("folder_env_episodes_inventoried")
+            seen_entries[files] = seen_entries.get(files, 0) + 1
+            if seen_entries[files] > 1:
+                cov.inc("folder_env_entries_built_again")
+            d = snap.first_diff(decl, blt)
+            if d:
+                path, dv, bv = d
+                again = "built-again" if seen_entries[files] > 1 else "first-build"
+                out.append(viol(f"built-differs-from-declared/{kind_of(path)}@episode-schedule/{again}",
+                                f"{spec['src']}: episode {ep} (files {list(files)}, {again} by the same environment): {path}: declared {str(dv)[:160]!r}, built {str(bv)[:160]!r}",
+                                {"path": path, "declared": str(dv)[:400], "built": str(bv)[:400], "episode": ep}))
+                return
+        env.close()
+    finally:
+        if tmp:
+            shutil.rmtree(tmp, ignore_errors=True)
+
+
+RUN = {"inventory": case_inventory, "folder_env": case_folder_env, "metamorphic": case_metamorphic, "node_sets": case_node_sets}
 
 
 class Check:
@@ -358,6 +423,12 @@ class Check:
         for f in envrun.SHIPPED_FOLDERS:
             for ep in range(3 if q else 6):
                 specs.append({"name": f"inv-{f}-ep{ep}", "kind": "inventory", "src": ["folder", f], "episode": ep})
+        for f in envrun.SHIPPED_FOLDERS:  # one environment walking through the schedule and past its end, inventoried after every reset
+            specs.append({"name": f"folder-env-{f}", "kind": "folder_env", "src": ["folder", f], "episodes": 6 if q else 12, "steps": 2})
+        for g in range(3 if q else 12):
+            sd = seed * 1000 + 850 + g
+            specs.append({"name": f"folder-env-gen-{sd}", "kind": "folder_env", "src": ["genfolder", {"seed": sd, "family": ["routed", "dmz", "wlan"][g % 3], "entries": 2 + g % 2}],
+                          "episodes": 5 if q else 9, "steps": 2})
         for f in envrun.TEST_ASSETS:
             specs.append({"name": f"inv-{f}", "kind": "inventory", "src": ["asset", f]})
         for s in range(40 if q else 300):
